@@ -124,9 +124,12 @@ let f _id vs =
           | SBatch its -> List.iter (fun it -> acc := ((it.w, it.s), (it.o, it.rel)) :: !acc) its
           | SList _ -> ()) steps;
       !acc in
+    (* ... and the sub-problems of the request itself: the branches of an intersection / exclusion and
+       the regions behind non-cyclic edges run with visited sets of their own but share the edge cache *)
     let hazard p si a =
       let (m, _, store, _, _) = penv p in
-      List.exists (fun (p', prev) -> p' = p && v2_visited_hazard m store gfuel prev a) (earlier si) in
+      List.exists (fun (p', prev) -> p' = p && v2_visited_hazard m store gfuel prev a) (earlier si)
+      || List.exists (fun prev -> v2_visited_hazard m store gfuel prev a) (reach m store gfuel a) in
     let props = ref [] and diffs = ref [] and knowns = ref [] in
     let prop s = props := s :: !props and diff s = diffs := s :: !diffs and known s = knowns := s :: !knowns in
     let where p ((o : obj), r) = Printf.sprintf "w%d %s#r%d@%s" (fst p) (obj_s o) (int_of_n r) (subj_s (List.nth subjs (snd p))) in
